@@ -63,6 +63,9 @@ type Case struct {
 	AppType   string `json:"app_type,omitempty"`
 	ErrPath   string `json:"err_path,omitempty"` // none | no_login | cb_store_fail | cb_client_fail | bad_prompt | prompt_none | create_fail | unsupported_rt | no_scope
 	JWTAccess bool   `json:"jwt_access,omitempty"`
+	// the SPELLING of the response type (RT stays the response type itself, in canonical spelling)
+	RTReq string   `json:"rt_req,omitempty"` // response_type exactly as the request spells it: values in any order, repeated values, additional / leading / trailing spaces ("" = RT)
+	RTReg []string `json:"rt_reg,omitempty"` // response types of the client registration as spelled there (empty = code, id_token, id_token token)
 
 	// direct calls
 	Resp        string `json:"resp,omitempty"` // code | token | error
@@ -238,6 +241,7 @@ func genSingle(t *rapid.T, vias []string) Case {
 			sp := genErrSpec(t)
 			c.StoreErr = &sp
 		}
+		genSpelling(t, &c)
 	case "url", "form":
 		c.Resp = rapid.SampledFrom([]string{"code", "token", "error"}).Draw(t, "resp")
 		if c.Resp == "code" {
@@ -377,6 +381,11 @@ type judge struct {
 	sound   bool
 	where   string
 	absent  []string // response parameters the provider did not produce for THIS response: none of them may arrive with a value
+	// refused: the provider did not accept the request's spelling of the response type (or refused the request before it
+	// looked at it) and no response_mode was named: the statement does not say which part of the Location carries the refusal
+	refused bool
+	// leakClass: suffix of the "tokens / parameters of a fragment-mode response in the query" fingerprint
+	leakClass string
 }
 
 // named are the response parameters the statement lists.
@@ -548,6 +557,13 @@ func (j *judge) location(loc string, wants []want) {
 		res.Fail("C11:registered-query-lost", "%s: query parameters %v of the redirect URI %q are gone or changed in %q", j.where, missing, j.c.URI, clip(loc))
 	}
 	ch := wantChannel(j.mode, j.c.RT, j.isError)
+	if j.refused && j.mode == "" {
+		ch = "query"
+		if l.hasFrag && len(rest) == 0 {
+			ch = "fragment"
+		}
+		res.Label("refused-spelling-delivered-by:" + ch)
+	}
 	if ch == "any" {
 		ch = "query"
 		if l.hasFrag && len(rest) == 0 {
@@ -561,7 +577,7 @@ func (j *judge) location(loc string, wants []want) {
 		j.values("query", rest, wants)
 	case "fragment":
 		if len(rest) > 0 {
-			res.Fail("C11:fragment:leaks-into-query", "%s: fragment-mode response puts %v into the query of %q", j.where, keysOf(rest), clip(loc))
+			res.Fail("C11:fragment:leaks-into-query"+j.leakClass, "%s: fragment-mode response puts %v into the query of %q", j.where, keysOf(rest), clip(loc))
 			return
 		}
 		if !l.hasFrag {
@@ -796,15 +812,7 @@ type httpRun struct {
 }
 
 func newHTTPRun(e *env, c Case, mode string, accept int) *httpRun {
-	rtsReg := []string{"code", "id_token", "id_token token"}
-	if c.ErrPath == "unsupported_rt" {
-		rtsReg = nil
-		for _, r := range rts {
-			if r != c.RT {
-				rtsReg = append(rtsReg, r)
-			}
-		}
-	}
+	rtsReg := c.registered()
 	e.nClient++
 	cl := &vkit.ClientSpec{ID: fmt.Sprintf("client-%d", e.nClient), AppType: c.AppType, AuthMethod: "none", DevMode: c.URIKind != "https", GrantTypes: []string{vkit.GCode, vkit.GImpl},
 		ResponseTypes: rtsReg, RedirectURIs: []string{c.URI}, JWTAccessToken: c.JWTAccess}
@@ -828,7 +836,7 @@ func (h *httpRun) authorize(g *gate) {
 	st.Policy.PromptNoneLoginError = c.ErrPath == "prompt_none"
 	st.SetFaults()
 	h.e.fs.set(nil)
-	q := url.Values{"client_id": {h.cl.ID}, "redirect_uri": {c.URI}, "response_type": {c.RT}, "scope": {strings.Join(c.Scopes, " ")}, "nonce": {"n-1"}}
+	q := url.Values{"client_id": {h.cl.ID}, "redirect_uri": {c.URI}, "response_type": {c.reqRT()}, "scope": {strings.Join(c.Scopes, " ")}, "nonce": {"n-1"}}
 	if c.State != "" {
 		q.Set("state", c.State)
 	}
@@ -985,7 +993,33 @@ func judgeHTTPOut(res *vkit.Result, e *env, c Case, out *httpOut) {
 		return
 	}
 	isError := c.ErrPath != "none"
-	j := &judge{res: res, c: c, mode: c.Mode, isError: isError, sound: true, where: fmt.Sprintf("http/%s %s (mode %q, type %q, %s)", c.Router, out.stage, c.Mode, c.RT, c.ErrPath)}
+	where := fmt.Sprintf("http/%s %s (mode %q, type %q, %s)", c.Router, out.stage, c.Mode, c.RT, c.ErrPath)
+	refused, leakClass := false, ""
+	if literal := has(c.registered(), c.reqRT()); c.spelled() || (!literal && c.registeredAsSet()) {
+		// the response type is the SET of values the request names. Whether a provider accepts a request whose spelling is
+		// not the canonical one, or is not literally the one of the registration, is its own business (nothing is asserted
+		// about that); but an accepted request is answered through the response mode of its response type
+		rt := canonRT(c.reqRT())
+		if !has(rts, rt) {
+			res.Grey = true
+			res.Label("grey:response-type-outside-domain")
+			return
+		}
+		c.RT = rt
+		where = fmt.Sprintf("http/%s %s (mode %q, type %q spelled %q by the request, client registered for %q, %s)", c.Router, out.stage, c.Mode, c.RT, c.reqRT(), c.registered(), c.ErrPath)
+		if out.stage == "authorize" {
+			// never handed to the login UI: refused (for its spelling or for something the provider checks before)
+			refused, isError = true, true
+			res.Label("rt-spelling:refused")
+		} else if literal {
+			leakClass = ":response-type-spelled-as-registered"
+			res.Label("rt-spelling:accepted:as-registered")
+		} else {
+			leakClass = ":response-type-spelling-not-registered"
+			res.Label("rt-spelling:accepted:not-registered")
+		}
+	}
+	j := &judge{res: res, c: c, mode: c.Mode, isError: isError, sound: true, where: where, refused: refused, leakClass: leakClass}
 	kind := delivered(out.final, c.URI)
 	res.Label("http:" + out.stage + ":" + kind)
 	var wants []want
@@ -1640,6 +1674,10 @@ func classify(res *vkit.Result, c Case) {
 	res.Label("via:"+c.Via, "mode:"+modeL, "type:"+c.RT, "outcome:"+outcome, "uri:"+c.URIKind)
 	if c.Via == "http" {
 		res.Label("router:"+c.Router, "errpath:"+c.ErrPath)
+		res.Label("rt-request:"+spellingClass(c), "rt-registration:"+registrationClass(c))
+		if c.spelled() && c.Mode == "" {
+			res.Label("rt-spelled:no-response_mode")
+		}
 	}
 	if uriQ {
 		res.Label("uri:with-query")
@@ -1660,6 +1698,9 @@ func classify(res *vkit.Result, c Case) {
 	res.Key = fmt.Sprintf("%s|%s|%s|%s|%s|%s|q=%v|f=%v|%v", c.Via, c.Router, modeL, c.RT, what, c.URIKind, uriQ, strings.Contains(c.URI, "#"), classes)
 	if c.StoreErr != nil && storeFails(c.ErrPath) {
 		res.Key += "|storeerr:" + kindClass(c.StoreErr.Kind)
+	}
+	if c.Via == "http" && (c.spelled() || len(c.RTReg) > 0) {
+		res.Key += "|rt:" + spellingClass(c) + "/reg:" + registrationClass(c)
 	}
 	if c.BrokenWriter {
 		res.Key += fmt.Sprintf("|broken@%d", c.Accept/100)
@@ -1702,8 +1743,9 @@ var prop = vkit.Prop[Case]{
 		"Excluded from the value domain (counted as grey labels): byte strings that are not valid UTF-8 as VALUES of a form_post page (an HTML document cannot spell them, a browser replaces them before it submits the form: such pages are judged for markup only, after decoding them the way a browser does) and in redirect URIs; NUL / CR / LF in form_post values (HTML cannot carry them); registered URIs whose own query uses a response parameter name, contains ';' or bad escapes, userinfo; action equality for non-http(s) schemes (html/template's inert #ZgotmplZ accepted) and hostile URIs. " +
 		"One case in five is a SEQUENCE of 2-5 such responses (success and error, mixed modes / types / paths, auth requests with and without session state) produced one after the other by ONE provider in one process: some steps write to a ResponseWriter that accepts 0-700 body bytes and fails from then on (not judged: nothing arrives; a fixed closing form_post response follows), some error steps answer one of 0-2 long-lived error VALUES of the sequence (typed / JSON-decoded *oidc.Error, optionally wrapped, or plain) instead of a fresh one; every step is judged with the per-response oracle. " +
 		"One case in five is an INTERLEAVING of 2-3 responses on ONE provider (HTTP flows ending in success, interaction_required, or a validation error of the authorize endpoint (prompt, scope, response type, login_required from the storage); direct AuthRequestError / TryErrorRedirect / AuthResponseURL / AuthResponseFormPost; every second case: requests of the same kind with their own state / session_state / redirect URI): each response is produced in its own goroutine and every getter the library calls on the auth request (GetState, GetSessionState, GetResponseMode, GetRedirectURI, GetResponseType), Authorizer.Encoder() and Encoder.Encode is a gate of the harness; the generated schedule parks step i at its HoldAt-th gate call (0-10) while the next 1-2 steps run until they finish or park, then releases it; one goroutine runs at a time and every hand-over is awaited (deterministic, replays exactly); every response is judged with the per-response oracle (the code of an interleaved flow = the code the storage holds for ITS auth request). One error step in four answers a long-lived error VALUE of the case. " +
+		"SPELLING of the response type (HTTP flows): one request in four spells its response type in another legal way - every permutation of the space-delimited values (token id_token), 0-2 repeated values at any position, 1-3 spaces between values, 0-2 leading / trailing spaces - and one client registration in three spells the implicit type as `token id_token` (alone, or next to `id_token token`). The response type of a request is the SET of its values (OAuth 2.0 Multiple Response Type Encoding Practices: the order does not matter). Whether the provider accepts a request whose spelling is not canonical or not literally the registered one is not asserted (a request that is not handed to the login UI counts as refused: its error may arrive in query or fragment when no response_mode was named, state etc. are still compared exactly); every ACCEPTED request is judged like the canonical spelling: explicit response_mode, else fragment for every type that delivers tokens and query for code, all parameters recovered from that part, nothing of a fragment-mode response in the query. " +
 		"Per response: each parameter of THIS response is recovered exactly once and unchanged, and no named response parameter the provider did not produce for it (code, state, session_state, tokens, error, error_description) arrives with a value. " +
-		"non-trivial = some value has a character outside [A-Za-z0-9_-] or the redirect URI has a query; distinct = (path, router, mode, type, response kind / error path, URI kind, query?, fragment?, set of character classes incl. invalid-utf8[, broken writer, shared error, kind of the storage's error value]); a sequence = the list of its steps' classes; an interleaving = the list of its steps' classes and the gates they were held at",
+		"non-trivial = some value has a character outside [A-Za-z0-9_-] or the redirect URI has a query; distinct = (path, router, mode, type, response kind / error path, URI kind, query?, fragment?, set of character classes incl. invalid-utf8[, spelling class of the request's response type / of the registration, broken writer, shared error, kind of the storage's error value]); a sequence = the list of its steps' classes; an interleaving = the list of its steps' classes and the gates they were held at",
 	Gen: genCase,
 	Run: run,
 }
